@@ -235,12 +235,10 @@ theorem accepted_vote_never_again (c : Crypto) (chainId : String) (s s' : State)
     exact Nat.mod_eq_of_lt hw
   omega
 
-/-- the only writers of the sequence / randao in the *code* are SetProposalSeq / UpdateRandao, called
-    exactly by the five voted handlers, each behind VerifyProposal (facts regenerated from the source) -/
+/-- in the *code*, a write of the sequence / randao is reachable only from the five voted bridge handlers (each behind
+    VerifyProposal) and from genesis (facts regenerated from the source) -/
 theorem code_writers_closed :
-    FactsThms.seqRandaoWriters.all (fun e =>
-      e == ("x/relayer/keeper.Keeper.SetProposalSeq", "Sequence.Set") ||
-      e == ("x/relayer/keeper.Keeper.UpdateRandao", "Randao.Set") ||
-      e.1 == "x/relayer/module.InitGenesis") = true := FactsThms.seq_writers_closed
+    Facts.seqReach.all (fun e => FactsThms.votedHandlers.contains e.1 || e.1 == "x/relayer/module.InitGenesis") = true :=
+  FactsThms.seq_writers_closed
 
 end Goat.C02
